@@ -1,7 +1,7 @@
 #!/bin/bash
 # tools/sweep.sh <tier> <seed...> — runs every check at the given seeds and prints one status line per run.
 tier=$1; shift
-cd /verif
+cd "$(dirname "$0")/.." # the tree this script is in: /verif, or a `vp run` snapshot of it
 for seed in "$@"; do
   for n in 01 02 03 04 05 06 07 08 09 10 11 12 13 14 15 16 17 18 19 20; do
     out=$(VERIF_SEED=$seed ./run c$n $tier 2>&1); rc=$?
